@@ -77,7 +77,7 @@ pub fn main(run_once: RunOnce) -> i32 {
                 real_bin: arg_val(&args, "--real-bin").map(PathBuf::from),
                 fidelity_cases: arg_val(&args, "--fidelity-cases").and_then(|s| s.parse().ok()).unwrap_or(150),
                 minimise_budget: Duration::from_secs(match tier {
-                    oracle::Tier::Quick => 30,
+                    oracle::Tier::Quick => 25,
                     oracle::Tier::Thorough => 120,
                 }),
             };
